@@ -174,10 +174,17 @@ def compile_harness(bdir, name, sources, wraps=(), variant="asan", extra=()):
     """Compile harness/<sources> against the fresh static libs.  Output lives in the build dir."""
     hdir = os.path.join(bdir, "harness")
     os.makedirs(hdir, exist_ok=True)
-    out = os.path.join(hdir, name)
     srcs = [s if os.path.isabs(s) else os.path.join(VERIF, "harness", s) for s in sources]
-    deps = srcs + glob.glob(os.path.join(VERIF, "harness", "*.h"))
-    if os.path.exists(out) and all(os.path.getmtime(out) > os.path.getmtime(d) for d in deps):
+    deps = srcs + sorted(glob.glob(os.path.join(VERIF, "harness", "*.h")))
+    # the build directory is shared by every copy of /verif that looks at the same library tree: key the binary by
+    # the content of its sources, so that two copies with different harness versions never pick up each other's binary
+    h = hashlib.sha256()
+    for d in deps:
+        with open(d, "rb") as fh:
+            h.update(fh.read())
+    h.update(repr((sorted(wraps), variant, sorted(extra))).encode())
+    out = os.path.join(hdir, "%s-%s" % (name, h.hexdigest()[:12]))
+    if os.path.exists(out):
         return out
     flags = (SAN_FLAGS if variant == "asan" else "-O2 -g").split()
     inc = ["-I" + os.path.join(REPO, "hdf", "src"), "-I" + os.path.join(REPO, "mfhdf", "src"),
